@@ -276,8 +276,10 @@ class DictList(list):
         other : iterable
             other must contain only unique id's present in the list
         """
-        for item in other:
-            self.remove(item)
+        # removing from a scratch list first leaves self untouched when an item is missing
+        remaining = self.__sub__(other)
+        list.__setitem__(self, slice(None), remaining)
+        self._dict = remaining._dict
         return self
 
     def __add__(self, other: Iterable[Object]) -> "DictList":
